@@ -254,6 +254,38 @@ pub fn varint_cases() -> Vec<SerCase> {
         spec.type_ngrams.push(NgramSpec { ngram: vec![2, 2], weights: (0..2 * w as usize - 1).map(|i| (i % 5) as i32 - 2).collect() });
         out.push(SerCase { spec, texts: vec!["abaab".into(), "a".repeat(300)], trailing: vec![0xfb] });
     }
+    // tag n-grams at the largest relative positions a byte can hold (tables of 255 / 256 rows per
+    // token), with small and with 255-wide windows, for the character and the type scorer
+    for (k, (w, rel)) in [(2u8, 254u8), (2, 255), (255, 3), (255, 255), (254, 254)].into_iter().enumerate() {
+        // bias 100: every character is a token of its own, so every "b" is tagged
+        let mut spec = ModelSpec { char_window: w, type_window: w, bias: 100, ..ModelSpec::default() };
+        spec.char_ngrams.push(NgramSpec { ngram: "a".into(), weights: (0..2 * w as usize).map(|i| (i % 9) as i32 - 4).collect() });
+        spec.type_ngrams.push(NgramSpec { ngram: vec![2], weights: (0..2 * w as usize).map(|i| (i % 5) as i32 - 2).collect() });
+        spec.tag_models.push(TagModelSpec {
+            token: "b".into(),
+            tags: vec![vec!["A".into(), "B".into(), "C".into()]],
+            char_ngrams: vec![
+                TagNgramSpec { ngram: "b".into(), weights: vec![TagWeightSpec { rel_position: 0, weights: vec![1, 9 + k as i32, 2] }] },
+                TagNgramSpec {
+                    ngram: "a".into(),
+                    weights: vec![
+                        TagWeightSpec { rel_position: 1, weights: vec![30, -2, 4] },
+                        TagWeightSpec { rel_position: rel, weights: vec![50, -7, 3] },
+                    ],
+                },
+            ],
+            type_ngrams: vec![TagNgramSpec {
+                ngram: vec![2, 2],
+                weights: vec![
+                    TagWeightSpec { rel_position: 1, weights: vec![-3, 100, 5] },
+                    TagWeightSpec { rel_position: rel, weights: vec![8, 8, -60] },
+                ],
+            }],
+            bias: vec![5, 0, 7],
+        });
+        let long = format!("ab{}aa", "c".repeat(rel as usize - 1));
+        out.push(SerCase { spec, texts: vec!["abab".into(), "b".into(), long, "ba b ab".into()], trailing: vec![0, 0xff] });
+    }
     out
 }
 
@@ -262,6 +294,8 @@ pub fn case_strategy() -> impl Strategy<Value = SerCase> {
         prop_oneof![
             1 => gen::model_case(ModelCfg { allow_255: false, max_texts: 3, ..ModelCfg::BOUNDARY }),
             2 => gen::model_case(ModelCfg::TAGGED),
+            // windows of 255: tag weight tables with 256 relative positions
+            1 => gen::model_case(ModelCfg { allow_255: true, max_texts: 2, ..ModelCfg::TAGGED }),
         ],
         proptest::collection::vec(any::<u8>(), 0..=64),
     )
@@ -301,7 +335,8 @@ tag-model token",
         "varint-boundaries",
         "models whose weight vectors, strings and tag lists have 248 .. 252, 300, 16,383, 16,384 \
 and 32,767 entries (both sides of the boundaries of the variable-length integer encoding) and \
-windows 124 .. 127, 255: same oracle",
+windows 124 .. 127, 255; tag n-grams at relative positions 254 / 255 (tag weight tables of 255 / \
+256 rows) with windows 2, 254 and 255: same oracle",
         false,
         varint_cases().into_iter(),
         |c: &SerCase| test_case(c).map(|mut i| { i.nontrivial = true; i }),
